@@ -277,7 +277,18 @@ pub fn run(case: &Value) -> Value {
                 let mut trailers: Vec<(String, String)> = Vec::new();
                 let mut body_error = Value::Null;
                 let mut body = body;
-                while let Some(fr) = body.frame().await {
+                // http_body's contract: once is_end_stream() answers true no further frame may follow; a transport (hyper's HTTP/1
+                // dispatcher) stops polling there, so anything that arrives afterwards is lost on the wire
+                let mut ended_hint = false;
+                let mut lost_after_end_hint = 0u64;
+                loop {
+                    if http_body::Body::is_end_stream(&body) {
+                        ended_hint = true;
+                    }
+                    let Some(fr) = body.frame().await else { break };
+                    if ended_hint {
+                        lost_after_end_hint += 1;
+                    }
                     match fr {
                         Ok(f) => {
                             if f.is_data() {
@@ -297,7 +308,8 @@ pub fn run(case: &Value) -> Value {
                     }
                 }
                 json!({"status": parts.status.as_u16(), "headers": headers, "body": to_hex(&data), "frames": frames,
-                       "trailers": trailers, "body_error": body_error, "size_hint": [hint_lower, hint_upper]})
+                       "trailers": trailers, "body_error": body_error, "size_hint": [hint_lower, hint_upper],
+                       "lost_after_end_hint": lost_after_end_hint})
             }
         }
     });
